@@ -25,23 +25,26 @@ type fsFileEnt struct {
 }
 
 type fsModel struct {
-	files      []*fsFileEnt
-	steps      int
-	crashAt    int // -1 = never
-	writeCalls int
-	werrCall   int // -1 = none
-	werrAfter  int
-	failKind   string
-	failAt     int // n-th call of failKind fails (0-based); -1 none
-	kindCount  map[string]int
-	tmpSeq     int
+	files                        []*fsFileEnt
+	steps                        int
+	crashAt                      int // -1 = never
+	writeCalls                   int
+	werrCall                     int // -1 = none
+	werrAfter                    int
+	failKind                     string
+	failAt                       int // n-th call of failKind fails (0-based); -1 none
+	kindCount                    map[string]int
+	tmpSeq                       int
 	errNotExist, errIO, errOther iface
-	opLog      []string
+	opLog                        []string
 }
 
 type fsHandle struct {
 	ent    *fsFileEnt
 	closed bool
+	pos    int  // write offset (handles opened without O_APPEND overwrite from here)
+	app    bool // O_APPEND: every write goes to the end
+	ro     bool
 }
 
 var fsIntrinsics = map[string]intrinsic{}
@@ -117,6 +120,11 @@ func (in *Interp) fsCreate(path Str) *fsFileEnt {
 
 // fsWrite appends data to ent; returns bytes written and whether an injected error stopped it.
 func (in *Interp) fsWrite(ent *fsFileEnt, data []*Term) (int, bool) {
+	return in.fsWriteAt(ent, nil, data)
+}
+
+// fsWriteAt writes through a handle (nil = append): at the handle's offset, or at the end for O_APPEND.
+func (in *Interp) fsWriteAt(ent *fsFileEnt, h *fsHandle, data []*Term) (int, bool) {
 	f := in.fsm()
 	call := f.writeCalls
 	f.writeCalls++
@@ -125,7 +133,16 @@ func (in *Interp) fsWrite(ent *fsFileEnt, data []*Term) (int, bool) {
 			return i, true
 		}
 		in.fsStep("byte")
-		ent.content = append(ent.content, b)
+		if h == nil || h.app || h.pos >= len(ent.content) {
+			ent.content = append(ent.content, b)
+			if h != nil {
+				h.pos = len(ent.content)
+			}
+		} else {
+			ent.content = append([]*Term{}, ent.content...)
+			ent.content[h.pos] = b
+			h.pos++
+		}
 	}
 	return len(data), false
 }
@@ -238,6 +255,46 @@ func init() {
 		var cell value = &fsHandle{ent: e}
 		return tuple{&cell, nilErr}
 	}
+	// os.OpenFile(name, flag, perm) with the Linux flag values; os.Create = O_RDWR|O_CREATE|O_TRUNC
+	const (
+		oWRONLY = 0x1
+		oRDWR   = 0x2
+		oCREATE = 0x40
+		oEXCL   = 0x80
+		oTRUNC  = 0x200
+		oAPPEND = 0x400
+	)
+	openFile := func(in *Interp, path Str, flag int) value {
+		f := in.fsm()
+		if flag&oCREATE != 0 && in.fsFail("create") {
+			return tuple{(*value)(nil), f.errOther}
+		}
+		e := in.fsFind(path)
+		switch {
+		case e == nil && flag&oCREATE == 0:
+			return tuple{(*value)(nil), f.errNotExist}
+		case e != nil && flag&oCREATE != 0 && flag&oEXCL != 0:
+			return tuple{(*value)(nil), f.errOther}
+		case e == nil:
+			in.fsStep("create")
+			e = &fsFileEnt{path: path}
+			f.files = append(f.files, e)
+		case flag&oTRUNC != 0 && flag&(oWRONLY|oRDWR) != 0:
+			in.fsStep("create")
+			e.content = nil
+		}
+		var cell value = &fsHandle{ent: e, app: flag&oAPPEND != 0, ro: flag&(oWRONLY|oRDWR) == 0}
+		return tuple{&cell, nilErr}
+	}
+	fsIntrinsics["os.OpenFile"] = func(fr *frame, a []value) value {
+		return openFile(fr.in, a[0].(Str), int(mustConc(a[1])))
+	}
+	fsIntrinsics["os.Create"] = func(fr *frame, a []value) value {
+		return openFile(fr.in, a[0].(Str), oRDWR|oCREATE|oTRUNC)
+	}
+	fsIntrinsics["os.Lstat"] = fsIntrinsics["os.Stat"]
+	fsIntrinsics["os.MkdirAll"] = func(fr *frame, a []value) value { return nilErr }
+	fsIntrinsics["os.Chmod"] = func(fr *frame, a []value) value { return nilErr }
 	handle := func(in *Interp, v value) *fsHandle {
 		p, ok := v.(*value)
 		if !ok || p == nil {
@@ -256,7 +313,10 @@ func init() {
 		if h.closed {
 			return tuple{in.tc.Const(64, 0), f.errOther}
 		}
-		n, bad := in.fsWrite(h.ent, toBytes(a[1]))
+		if h.ro {
+			return tuple{in.tc.Const(64, 0), f.errOther}
+		}
+		n, bad := in.fsWriteAt(h.ent, h, toBytes(a[1]))
 		if bad {
 			return tuple{in.tc.Const(64, uint64(n)), f.errIO}
 		}
